@@ -96,6 +96,8 @@ fn main() {
     let mut seed = 1u64;
     let mut len = 200usize;
     let mut dir = String::from(".");
+    let mut lockpat = false;
+    let mut patterns: std::collections::BTreeMap<String, std::collections::BTreeMap<String, u64>> = Default::default();
     let mut i = 1;
     while i < args.len() {
         match args[i].as_str() {
@@ -103,10 +105,12 @@ fn main() {
             "--seed" => { seed = args[i + 1].parse().unwrap(); i += 1; }
             "--len" => { len = args[i + 1].parse().unwrap(); i += 1; }
             "--replay-dir" => { dir = args[i + 1].clone(); i += 1; }
+            "--lockpat" => { lockpat = true; }
             _ => {}
         }
         i += 1;
     }
+    vh::collab::LOCK_DETAIL.with(|d| d.set(lockpat));
     let mut viol: Vec<Value> = vec![];
     let mut seen: std::collections::BTreeSet<String> = Default::default();
     let mut calls = 0u64;
@@ -126,8 +130,13 @@ fn main() {
             *kinds.entry(ev["e"].as_str().unwrap().to_string()).or_default() += 1;
             hist.push(ev.clone());
             calls += 1;
+            let pre_state = if lockpat { ev.get("p").and_then(|x| x.as_u64()).map(|p| w.port_state_letter(p as usize - 1)).unwrap_or("-") } else { "-" };
             let res = w.step(&ev);
             let locks = lock_log_take();
+            if lockpat {
+                let name = format!("{}{}/{}", ev["e"].as_str().unwrap(), ev.get("k").and_then(|x| x.as_str()).map(|k| format!(":{}", k)).unwrap_or_default(), pre_state);
+                *patterns.entry(name).or_default().entry(locks.clone()).or_default() += 1;
+            }
             let bad = res.get("panic").map(|p| p.as_str().unwrap_or("panic").to_string()).or(if locks.contains('P') { Some("state lock released by unwinding (poisoned)".to_string()) } else { None });
             if let Some(msg) = bad {
                 total_panics += 1;
@@ -142,5 +151,15 @@ fn main() {
             }
         }
     }
-    println!("{}", json!({"runs": runs, "calls": calls, "events_by_kind": kinds, "panics": total_panics, "violations": viol}));
+    // getters used by observers (each is one call of the public API)
+    if lockpat {
+        let w: World<RecMutex> = World::new(Cfg::from_json(&cfgs(0)));
+        lock_log_take();
+        let _ = w.inst().parent_ds(); patterns.entry("get:parent_ds".into()).or_default().insert(lock_log_take(), 1);
+        let _ = w.inst().current_ds(None); patterns.entry("get:current_ds".into()).or_default().insert(lock_log_take(), 1);
+        let _ = w.inst().time_properties_ds(); patterns.entry("get:time_properties_ds".into()).or_default().insert(lock_log_take(), 1);
+        let _ = w.inst().default_ds(); patterns.entry("get:default_ds".into()).or_default().insert(lock_log_take(), 1);
+        let _ = w.inst().path_trace_ds(); patterns.entry("get:path_trace_ds".into()).or_default().insert(lock_log_take(), 1);
+    }
+    println!("{}", json!({"runs": runs, "calls": calls, "events_by_kind": kinds, "panics": total_panics, "violations": viol, "lock_patterns": patterns}));
 }
